@@ -72,7 +72,7 @@ def gen_sources(rng, sizes):
 def gen_case(rng, cid):
     dyadic = rng.random() < 0.6
     kind = rng.choice(['tb', 'tworate'])
-    c = {'cid': str(cid), 'kind': kind, 'dyadic': dyadic}
+    c = {'cid': str(cid), 'kind': kind, 'dyadic': dyadic, 'own_ids': rng.random() < 0.3}
     sizes = DY_SIZE if dyadic else [rng.randint(1, 3000) for _ in range(4)] + [40, 1500]
     def rate():
         return rng.choice(DY_RATE) if dyadic else rng.choice([rng.uniform(1, 1e4), rng.uniform(1e3, 1e7), rng.randint(1, 10 ** 6)])
@@ -119,7 +119,7 @@ def run_impl(c):
     dev.out = Tap(run)
     counter = [0]
     for script in c['sources']:
-        env.process(feeder(env, dev, script, counter))
+        env.process(feeder(env, dev, script, [0] if c.get('own_ids') else counter))
     run.raised = None
     try:
         run.run()
